@@ -88,6 +88,7 @@ type DeclSpec struct {
 	Usage          string       `json:"usage,omitempty"`
 	ShortDesc      string       `json:"short_desc,omitempty"`
 	LongDesc       string       `json:"long_desc,omitempty"`
+	Reenter        bool         `json:"reenter,omitempty"` // Execute / handler / callbacks call back into the parser (WriteHelp)
 }
 
 // V is a kind-independent value: scalars as text, containers as lists.
